@@ -426,6 +426,30 @@ func run(c *core.Ctx) {
 			}
 		}
 	}
+	if parts[2] == "long" && kind == "enum" && path == "text" {
+		for _, mi := range confusable() {
+			if c.Expired() {
+				break
+			}
+			mi := mi
+			in := Input{Many: &mi}
+			caseNo, run := c.Begin()
+			if c.Skip(caseNo, run, in) {
+				continue
+			}
+			c.Exec()
+			c.Validate()
+			c.Edge(2)
+			c.StateN(1)
+			c.NontrivialN(1)
+			if f := checkMany(mi); f != nil {
+				c.Outcome("FAIL:" + f.fp)
+				c.Fail(caseNo, nil, "confusable:"+f.fp, in, f.exp, f.obs)
+			} else {
+				c.Outcome("confusable-lists-kept-apart")
+			}
+		}
+	}
 	if parts[2] == "long" {
 		// long member lists and values off the boundary grid: n implicit members (every n to 300)
 		// alone, followed by an explicit member that repeats the value of the last one, of the
